@@ -158,6 +158,46 @@ pub fn compile(request: &Value) -> Value
 		modules.push((std::path::PathBuf::from(filename), declarations));
 	}
 
+	let want_spanmon = request["spanmon"].as_bool().unwrap_or(false);
+	let mut spans_checked = 0usize;
+	if want_spanmon
+	{
+		// Location monitor: every location stored in the parsed tree must be a forward span inside its source
+		// (a backward span makes the diagnostic renderer panic as soon as some error points at that node).
+		let mut bad = Vec::new();
+		for ((_path, declarations), (filename, source)) in modules.iter().zip(sources.iter())
+		{
+			let n_chars = source.chars().count();
+			let dump = format!("{:?}", declarations);
+			let mut rest = dump.as_str();
+			while let Some(pos) = rest.find("span: ")
+			{
+				rest = &rest[pos + 6..];
+				let digits = |s: &str| s.chars().take_while(|c| c.is_ascii_digit()).collect::<String>();
+				let a = digits(rest);
+				if a.is_empty() || !rest[a.len()..].starts_with("..")
+				{
+					continue;
+				}
+				let b = digits(&rest[a.len() + 2..]);
+				if b.is_empty()
+				{
+					continue;
+				}
+				let (a, b): (usize, usize) = (a.parse().unwrap_or(0), b.parse().unwrap_or(0));
+				spans_checked += 1;
+				if (a > b || b > n_chars.max(1)) && bad.len() < 8
+				{
+					bad.push(json!({"file": filename, "start": a, "end": b, "chars": n_chars}));
+				}
+			}
+		}
+		if !bad.is_empty()
+		{
+			return json!({"status": "spanmon", "bad": bad, "spans_checked": spans_checked});
+		}
+	}
+
 	expander::expand(&mut modules);
 	for (i, (_filepath, declarations)) in modules.iter().enumerate()
 	{
@@ -231,6 +271,7 @@ pub fn compile(request: &Value) -> Value
 					"errors": list,
 					"renders": renders,
 					"lints_before": all_lints,
+					"spans_checked": spans_checked,
 				});
 			}
 		};
@@ -292,6 +333,7 @@ pub fn compile(request: &Value) -> Value
 		"resolved": summaries,
 		"typemon": typemon_reports,
 		"typemon_stats": typemon_stats.to_json(),
+		"spans_checked": spans_checked,
 	})
 }
 
